@@ -3,9 +3,9 @@
 cd "$(dirname "$0")/.."
 out=${1:-/tmp/seeded_matrix.txt}; : > $out
 for d in seeded/C*/; do
-  id=$(basename $d)
+  id=$(basename $d); prop=${id:0:3}   # seeded/C15b is a second change for property C15
   git -C /repo apply /verif/$d/patch.diff || { echo "$id: patch does not apply" >> $out; continue; }
-  VERIF_NO_EVIDENCE=1 ./check $id > /tmp/seeded_$id.log 2>&1; rc=$?
+  VERIF_NO_EVIDENCE=1 ./check $prop > /tmp/seeded_$id.log 2>&1; rc=$?
   git -C /repo checkout -- .
   n=$(grep -c "^VIOLATION" /tmp/seeded_$id.log)
   first=$(grep "^VIOLATION" /tmp/seeded_$id.log | head -3 | sed 's/.*replays\/[^/]*\///; s/\.json.*//' | tr '\n' ';')
